@@ -102,3 +102,61 @@ for _cp in _KIND:
             ghost=[("after:y = self.predict(X)", "g_anoms = payload(y)")],
             props=["C05", "C16", "C04"],
         )
+
+# ---- CAPA / CircularBinarySegmentation: the collective-anomaly converter is pandas only (IntervalIndex.get_indexer) -> ASSUMED contract (exercised by
+# the bounded C05 driver over all valid sparse outputs); what is proved is that transform hands it THIS call's predict(X), one label per row of X, and that
+# its precondition -- non-empty intervals inside [0, n], each ending before the next starts (get_indexer raises on overlapping intervals) -- follows
+# from the C04 clauses of the detectors' _predict posts
+AB = "skchange/anomaly_detectors/base.py"
+_I = "payload(y_sparse)"
+contract(
+    target=f"{AB}::CollectiveAnomalyDetector.sparse_to_dense", assumed=True, level="A",
+    params={"y_sparse": "frame:list[(int,int)]", "index": "series:int[n]", "columns": "any"},
+    requires=[f"forall(range(len({_I})), lambda a: 0 <= {_I}[a][0] and {_I}[a][0] < {_I}[a][1] and {_I}[a][1] <= n)",
+              f"forall(range(len({_I}) - 1), lambda a: {_I}[a][1] <= {_I}[a + 1][0])"],
+    returns="frame:int[n]",
+    ensures={
+        "length": "len(payload(result)) == n",
+        "inside": f"forall(range(len({_I})), range(n), lambda a, t: implies({_I}[a][0] <= t and t < {_I}[a][1], payload(result)[t] == a + 1))",
+        "outside": f"forall(range(n), lambda t: implies(not exists(range(len({_I})), lambda a: {_I}[a][0] <= t and t < {_I}[a][1]), payload(result)[t] == 0))",
+    },
+    note="pandas: pd.IntervalIndex(ilocs).get_indexer(RangeIndex(len(index))) + 1 labels position t with a+1 iff t lies in the a-th (left-closed) interval, "
+         "0 elsewhere; requires non-overlapping intervals (bounded: C05 over all valid sparse outputs and index types)",
+)
+_G = "g_anoms"
+_COLL_LABELS = {
+    "length": "len(payload(result)) == n",
+    "inside": f"forall(range(len({_G})), range(n), lambda a, t: implies({_G}[a][0] <= t and t < {_G}[a][1], payload(result)[t] == a + 1))",
+    "outside": f"forall(range(n), lambda t: implies(not exists(range(len({_G})), lambda a: {_G}[a][0] <= t and t < {_G}[a][1]), payload(result)[t] == 0))",
+}
+_GHOST_A = [("after:y = self.predict(X)", "g_anoms = payload(y)")]
+contract(
+    target=f"{BD}::BaseDetector.transform", self_class="CAPA", variant="CAPA",
+    params={"self": "obj:CAPA", "self._is_fitted": "bool=True", "self.collective_penalty_": "real", "self.point_penalty_": "real", "self.min_segment_length": "int",
+            "self.max_segment_length": "int", "self.ignore_point_anomalies": "bool", "self.scores": "any",
+            "self._collective_saving": "obj:~BaseSaving", "self._collective_saving.min_size": "int",
+            "self._point_saving": "obj:~BaseSaving", "self._point_saving.min_size": "int", "X": "real[n,p]"},
+    requires=["self._collective_saving.min_size >= 1", "self._collective_saving.min_size <= self.min_segment_length", "self._point_saving.min_size == 1",
+              "self.min_segment_length >= 2", "self.max_segment_length >= self.min_segment_length",
+              "CAPA_THEORY('all', self.collective_penalty_, ZEROS1(), 'all', self.point_penalty_, ZEROS1(), self.min_segment_length, self.max_segment_length, n)",
+              "CAPA_SUBADD('all', self.collective_penalty_, ZEROS1(), self.collective_penalty_, self.min_segment_length, self.max_segment_length, n)"],
+    raises={"ValueError": "HASNAN(X) or n < self.min_segment_length"},
+    returns="frame:int[n]",
+    ensures=dict(_COLL_LABELS, sorted_disjoint=f"forall(range(len({_G})), range(len({_G})), lambda a, b: implies(a < b, {_G}[a][1] <= {_G}[b][0]))"),
+    ghost=_GHOST_A,
+    props=["C05", "C04"],
+)
+contract(
+    target=f"{BD}::BaseDetector.transform", self_class="CircularBinarySegmentation", variant="CircularBinarySegmentation",
+    params={"self": "obj:CircularBinarySegmentation", "self._is_fitted": "bool=True", "self.threshold_": "real", "self.min_segment_length": "int",
+            "self.max_interval_length": "int", "self.growth_factor": "real", "self.scores": "any",
+            "self._anomaly_score": "obj:~BaseLocalAnomalyScore", "self._anomaly_score.min_size": "int", "X": "real[n,p]"},
+    requires=["self.min_segment_length >= 1", "self.threshold_ >= 0", "self._anomaly_score.min_size >= 1",
+              "self._anomaly_score.min_size <= self.min_segment_length", "self.max_interval_length >= 2 * self.min_segment_length",
+              "self.growth_factor > 1", "self.growth_factor <= 2"],
+    raises={"ValueError": "HASNAN(X) or n < 2 * self.min_segment_length"},
+    returns="frame:int[n]",
+    ensures=dict(_COLL_LABELS),
+    ghost=_GHOST_A,
+    props=["C05", "C04"],
+)
